@@ -9,10 +9,14 @@
             6 k value        l[k] = append(l[k], NewVariant(host))
             7 k              l[k] = l[k][:0]
             8 i idx value    v[i].GetByIndex(idx).SetAsObject(host)   (an element the array got by growing, never shared)
+            9 table          (first operation only) the spare capacity Go's append leaves when it reallocates a slice of
+                             length n, for n = 0, 1, 2, ... as measured by the harness: the history is then run on the HEAP
+                             machine (VariantHeap.v: objects, slices, backing arrays), which also says what Go does when
+                             handles that share a list are written in place; without it, on the value machine
    output = L [L [registers; lists; equals-matrix] ...] after each operation; value = L [I type; payload] as for C06 *)
 From Coq Require Import List ZArith Bool.
 Import ListNotations.
-Require Import Sx VariantValue.
+Require Import Sx VariantValue VariantHeap.
 Open Scope Z_scope.
 
 Fixpoint dec_v (fuel : nat) (s : sx) : val :=
@@ -51,5 +55,33 @@ Definition observe20 (m : mach) : sx :=
 Fixpoint run20 (m : mach) (ops : list op) : list sx :=
   match ops with [] => [] | o :: r => let m' := step m o in observe20 m' :: run20 m' r end.
 
+(* the same operation with the Go API it goes through (the last element of the operation) *)
+Definition flavour (s : sx) : Z := gz (last (gl s) (I 0)).
+Definition dec_hop (s : sx) : hop :=
+  let a := gnat (nth_sx 1 s) in
+  match gz (nth_sx 0 s) with
+  | 0 => HNew a (dec_v 5 (nth_sx 2 s)) (flavour s =? 2)
+  | 1 => HFromList a (gnat (nth_sx 2 s)) (flavour s =? 1)
+  | 2 => HCopy a (gnat (nth_sx 2 s)) (if flavour s =? 1 then 1 else if flavour s =? 3 then 2 else 0)
+  | 3 => HSetByIndex a (gnat (nth_sx 2 s)) (dec_v 5 (nth_sx 3 s))
+  | 4 => HSetLength a (gnat (nth_sx 2 s))
+  | 5 => HListWrite a (gnat (nth_sx 2 s)) (dec_v 5 (nth_sx 3 s))
+  | 6 => HListAppend a (dec_v 5 (nth_sx 2 s))
+  | 8 => HSetElem a (gnat (nth_sx 2 s)) (dec_v 5 (nth_sx 3 s))
+  | _ => HListTruncate a
+  end.
+
+Fixpoint hrun20 (slack : nat -> nat) (m : hmach) (ops : list hop) : list sx :=
+  match ops with [] => [] | o :: r => let m' := hstep slack m o in observe20 (abs m') :: hrun20 slack m' r end.
+
+(* the harness starts with four empty variants and two empty caller lists of capacity 4 and 2 *)
+Definition lists20 : list (list val * nat) := [(repeat Null 4, O); (repeat Null 2, O)].
+
 Definition model_C20 (input : sx) : sx :=
-  L (run20 {| regs := [Null; Null; Null; Null]; lists := [[]; []] |} (map dec_op20 (gl input))).
+  match gl input with
+  | first :: rest =>
+      if gz (nth_sx 0 first) =? 9
+      then let table := map gnat (gl (nth_sx 1 first)) in L (hrun20 (fun n => nth n table O) (hinit 4 lists20) (map dec_hop rest))
+      else L (run20 (vinit 4 lists20) (map dec_op20 (gl input)))
+  | [] => L []
+  end.
